@@ -192,6 +192,17 @@ _PATCH_NOTES = {
     "NE2": "get_child_version: map_err closure + separate match", "NE3": "get_snapshot: response helper + map/ok_or_else",
     "NE4": "api: private items renamed", "NF1": "lib: default_headers() helper, locals", "NF2": "bin: private fn and fields renamed",
     "NF3": "bin: argument-builder helper fns", "NF4": "bin: destructuring let, try_fold over listen addresses",
+    "OA1": "sqlite: new_connection inlined into its two callers", "OA2": "api: failure_to_ise inlined (ErrorInternalServerError passed directly)",
+    "OA3": "lib: api_scope() inlined into WebServer::config", "OA4": "bin: print_error turned into a closure",
+    "OB1": "core: Client destructured once, one match for both urgencies", "OB2": "inmemory: key type alias, named key locals",
+    "OB3": "sqlite: helper parameter dropped, row tuple -> private struct", "OB4": "add_version: server reference and header value hoisted",
+    "OC1": "core: ok_or(..)? -> let-else returning NoSuchClient; nested match in get_snapshot", "OC2": "inmemory: ensure!/bail!, error constructor fn, let-else",
+    "OC3": "sqlite: tail expressions, match + ensure! instead of map/transpose", "OC4": "api: ok_or_else, guarded match, error constructor fn",
+    "OD1": "sqlite: create_schema() helper", "OD2": "sqlite: named_params! with :name placeholders", "OD3": "sqlite: row mappers as named functions, columns by name",
+    "OD4": "sqlite: SQL text consts, client_id_param() helper", "OE1": "add_version: response-building helpers", "OE2": "add_snapshot: content-type and size-check helpers",
+    "OE3": "read handlers: builder held in a local, statement by statement", "OE4": "bin/lib: build_server() and header-middleware helpers",
+    "OF1": "core: snapshot walk as while loop (De Morgan), match", "OF2": "core: one match in a private for_snapshot()", "OF3": "core: private ParentCheck enum for both operations",
+    "OF4": "inmemory: key() helper, match instead of if-let",
 }
 for _p in sorted(_glob.glob(_os.path.join(_PD, "*.diff"))):
     _n = _os.path.basename(_p)[:-5]
